@@ -109,11 +109,14 @@ pub struct WorkerCtx<C> {
     locate: Option<PathBuf>,
     /// heartbeat slot in the supervisor's file
     slot: Option<(std::fs::File, u64)>,
+    /// kernel thread id of this worker (the supervisor reads its CPU time from /proc)
+    tid: u64,
+    last_hb: Instant,
 }
 
 const SIG_CAP: usize = 3_000_000;
 
-const SLOT_WIDTH: u64 = 32;
+const SLOT_WIDTH: u64 = 64;
 
 impl<C: Clone + Serialize> WorkerCtx<C> {
     /// Must be called before a case is evaluated. In locate mode (after a crash or stall of the
@@ -149,6 +152,8 @@ impl<C: Clone> WorkerCtx<C> {
             digest_every,
             locate: None,
             slot: None,
+            tid: current_tid(),
+            last_hb: Instant::now(),
         }
     }
 
@@ -159,6 +164,15 @@ impl<C: Clone> WorkerCtx<C> {
             }
         }
         self
+    }
+
+    /// Progress inside a run index: at most every 200 ms the slot is rewritten with the number of
+    /// evaluations finished, so that the supervisor measures stalls per evaluation.
+    fn progress(&mut self) {
+        if self.slot.is_some() && self.last_hb.elapsed() > Duration::from_millis(200) {
+            self.last_hb = Instant::now();
+            self.heartbeat(&format!("run {} {} t{}", self.cur_index, self.cur_sub, self.tid));
+        }
     }
 
     /// Tell the supervisor which run index this worker is about to process.
@@ -192,6 +206,7 @@ impl<C: Clone> WorkerCtx<C> {
             self.digests.push((self.cur_index, self.cur_sub, ev.digest));
         }
         self.cur_sub += 1;
+        self.progress();
         if let Some(v) = ev.violation {
             if let Some(k) = known.matching(&v) {
                 *self.known_hits.entry(k).or_insert(0) += 1;
@@ -451,7 +466,8 @@ pub fn run_check<K: Check>(check: &K, opts: &Options) -> i32 {
                     }
                     ctx.cur_index = i;
                     ctx.cur_sub = 0;
-                    ctx.heartbeat(&format!("run {}", i));
+                    ctx.last_hb = Instant::now();
+                    ctx.heartbeat(&format!("run {} 0 t{}", i, ctx.tid));
                     let had = ctx.violations.len();
                     check.run_index(opts.seed, i, opts.tier, &mut ctx, &known);
                     if ctx.violations.len() > had {
@@ -497,7 +513,8 @@ pub fn run_check<K: Check>(check: &K, opts: &Options) -> i32 {
                     let i = sample_indexes[sample_indexes.len() - 1 - j];
                     ctx.cur_index = i;
                     ctx.cur_sub = 0;
-                    ctx.heartbeat(&format!("run {}", i));
+                    ctx.last_hb = Instant::now();
+                    ctx.heartbeat(&format!("run {} 0 t{}", i, ctx.tid));
                     check.run_index(opts.seed, i, opts.tier, &mut ctx, &known);
                 }
                 ctx.heartbeat("done");
@@ -756,16 +773,95 @@ fn read_slots(path: &Path) -> Vec<String> {
 }
 
 fn slot_index(text: &str) -> Option<u64> {
-    text.strip_prefix("run ").and_then(|n| n.trim().parse().ok())
+    text.strip_prefix("run ")
+        .and_then(|n| n.split_whitespace().next())
+        .and_then(|n| n.parse().ok())
 }
 
-fn wait_supervised(child: &mut std::process::Child, slots: Option<&Path>, limit: Duration) -> ChildEnd {
+fn slot_tid(text: &str) -> Option<u64> {
+    text.split_whitespace()
+        .find_map(|w| w.strip_prefix('t').and_then(|n| n.parse().ok()))
+}
+
+fn current_tid() -> u64 {
+    std::fs::read_link("/proc/thread-self")
+        .ok()
+        .and_then(|p| p.file_name().and_then(|n| n.to_str()).and_then(|n| n.parse().ok()))
+        .unwrap_or(0)
+}
+
+/// CPU seconds (user + system) a process or one of its threads has consumed, from /proc.
+fn cpu_seconds(pid: u32, tid: Option<u64>) -> Option<f64> {
+    let path = match tid {
+        Some(t) => format!("/proc/{}/task/{}/stat", pid, t),
+        None => format!("/proc/{}/stat", pid),
+    };
+    let text = std::fs::read_to_string(path).ok()?;
+    // fields after the parenthesised command name; utime and stime are the 14th and 15th overall
+    let rest = &text[text.rfind(')')? + 1..];
+    let f: Vec<&str> = rest.split_whitespace().collect();
+    let utime: f64 = f.get(11)?.parse().ok()?;
+    let stime: f64 = f.get(12)?.parse().ok()?;
+    Some((utime + stime) / 100.0)
+}
+
+/// What the supervisor watches to see that the child is getting somewhere.
+enum Progress<'a> {
+    /// the batch: one heartbeat slot per worker thread
+    Slots(&'a Path),
+    /// locate mode: the file the case about to be evaluated is written to
+    CaseFile(&'a Path),
+    /// a single case (replay)
+    Whole,
+}
+
+/// A unit of work that has not finished after `limit` is a stall only if the machine really gave
+/// it the time: it must have burnt at least half the limit in CPU time (a spin), or next to none
+/// in a whole window (parked for good: a lost wake-up, a deadlock). A run that is merely slow
+/// because the machine is oversubscribed — it uses some CPU, but little — gets further windows.
+struct StallClock {
+    since_tick: u64,
+    cpu_at_mark: Option<f64>,
+    cpu_accumulated: f64,
+}
+
+impl StallClock {
+    fn new(tick: u64, cpu: Option<f64>) -> Self {
+        StallClock {
+            since_tick: tick,
+            cpu_at_mark: cpu,
+            cpu_accumulated: 0.0,
+        }
+    }
+
+    /// Called when a window has elapsed without progress. `true`: stalled.
+    fn window_elapsed(&mut self, tick: u64, cpu_now: Option<f64>, limit_s: f64) -> bool {
+        let (Some(a), Some(b)) = (self.cpu_at_mark, cpu_now) else {
+            return true; // no CPU accounting available: the plain tick limit decides
+        };
+        let used = (b - a).max(0.0);
+        self.cpu_accumulated += used;
+        if used < 0.02 * limit_s || self.cpu_accumulated >= 0.5 * limit_s {
+            return true;
+        }
+        self.since_tick = tick;
+        self.cpu_at_mark = cpu_now;
+        false
+    }
+}
+
+fn wait_supervised(child: &mut std::process::Child, progress: Progress<'_>, limit: Duration) -> ChildEnd {
+    use std::os::unix::fs::MetadataExt;
     use std::os::unix::process::ExitStatusExt;
     // Stalls are measured in the supervisor's own polling ticks (100 ms each), not in wall-clock
     // time: if the whole machine is paused (VM snapshot, suspend) both processes stop together and
     // no ticks accumulate, whereas a clock-based limit would see a two-minute "stall".
     let limit_ticks = (limit.as_millis() / 100).max(10) as u64;
-    let mut last: Vec<(String, u64)> = Vec::new();
+    let limit_s = limit.as_secs_f64();
+    let pid = child.id();
+    let mut last: Vec<(String, StallClock)> = Vec::new();
+    let mut whole = StallClock::new(0, cpu_seconds(pid, None));
+    let mut file_key: Option<(u64, i64, i64, u64)> = None;
     let mut tick = 0u64;
     loop {
         match child.try_wait() {
@@ -781,18 +877,23 @@ fn wait_supervised(child: &mut std::process::Child, slots: Option<&Path>, limit:
         }
         std::thread::sleep(Duration::from_millis(100));
         tick += 1;
-        match slots {
-            Some(p) => {
+        match &progress {
+            Progress::Slots(p) => {
                 let cur = read_slots(p);
-                if last.len() < cur.len() {
-                    last.resize(cur.len(), (String::new(), tick));
+                while last.len() < cur.len() {
+                    last.push((String::new(), StallClock::new(tick, None)));
                 }
                 let mut stalled = Vec::new();
                 let mut any_stalled = false;
                 for (i, c) in cur.iter().enumerate() {
+                    let tid = slot_tid(c);
                     if last[i].0 != *c {
-                        last[i] = (c.clone(), tick);
-                    } else if !c.is_empty() && c != "done" && tick - last[i].1 > limit_ticks {
+                        last[i] = (c.clone(), StallClock::new(tick, cpu_seconds(pid, tid)));
+                    } else if !c.is_empty()
+                        && c != "done"
+                        && tick - last[i].1.since_tick > limit_ticks
+                        && last[i].1.window_elapsed(tick, cpu_seconds(pid, tid), limit_s)
+                    {
                         any_stalled = true;
                         if let Some(idx) = slot_index(c) {
                             stalled.push(idx);
@@ -805,8 +906,20 @@ fn wait_supervised(child: &mut std::process::Child, slots: Option<&Path>, limit:
                     return ChildEnd::Stalled(stalled);
                 }
             }
-            None => {
-                if tick > limit_ticks {
+            Progress::CaseFile(_) | Progress::Whole => {
+                if let Progress::CaseFile(p) = &progress {
+                    // every case is written (tmp + rename) before it is evaluated
+                    let key = std::fs::metadata(p)
+                        .ok()
+                        .map(|m| (m.ino(), m.mtime(), m.mtime_nsec(), m.len()));
+                    if key != file_key {
+                        file_key = key;
+                        whole = StallClock::new(tick, cpu_seconds(pid, None));
+                    }
+                }
+                if tick - whole.since_tick > limit_ticks
+                    && whole.window_elapsed(tick, cpu_seconds(pid, None), limit_s)
+                {
                     let _ = child.kill();
                     let _ = child.wait();
                     return ChildEnd::Stalled(Vec::new());
@@ -841,7 +954,7 @@ pub fn supervise(id: &str, tier: Tier, opts: &Options) -> i32 {
             return 2;
         }
     };
-    let end = wait_supervised(&mut child, Some(&slots), stall_limit());
+    let end = wait_supervised(&mut child, Progress::Slots(&slots), stall_limit());
     let active: Vec<u64> = read_slots(&slots).iter().filter_map(|t| slot_index(t)).collect();
     let _ = std::fs::remove_file(&slots);
     // a violation that had already been found (and was being minimised) when the process died
@@ -888,13 +1001,13 @@ pub fn supervise(id: &str, tier: Tier, opts: &Options) -> i32 {
             Err(_) => continue,
         };
         let limit = stall_limit().min(Duration::from_secs(60));
-        let clause = match wait_supervised(&mut lc, None, limit) {
+        let clause = match wait_supervised(&mut lc, Progress::CaseFile(&case_file), limit) {
             ChildEnd::Exit(_) => {
                 let _ = std::fs::remove_file(&case_file);
                 continue;
             }
             ChildEnd::Crashed(w) => ("process_abort", format!("the process is killed while this case runs ({}): allocation failure, stack overflow or abort in the code under test", w)),
-            ChildEnd::Stalled(_) => ("hang", format!("this case does not finish within {} s of wall-clock time without touching the transport", limit.as_secs())),
+            ChildEnd::Stalled(_) => ("hang", format!("this case does not finish: {} s without completing, having either spun for at least {} s of CPU time or stopped using the CPU altogether", limit.as_secs(), limit.as_secs() / 2)),
         };
         let located: Option<Value> = std::fs::read(&case_file)
             .ok()
@@ -942,7 +1055,7 @@ pub fn supervise_replay(file: &str, quiet: bool, strict: bool, rf: &ReplayFile) 
         return 2;
     };
     let limit = stall_limit().min(Duration::from_secs(60));
-    match wait_supervised(&mut child, None, limit) {
+    match wait_supervised(&mut child, Progress::Whole, limit) {
         ChildEnd::Exit(c) => c,
         ChildEnd::Crashed(w) => {
             if !quiet {
@@ -1021,7 +1134,7 @@ fn shrink_case<K: Check>(
             }
             let idx = (pos + k) % n;
             tries += 1;
-            hb.heartbeat(&format!("shrink {}", tries));
+            hb.heartbeat(&format!("shrink {} t{}", tries, hb.tid));
             let ev = check.eval(&cands[idx]);
             if let Some(nv) = ev.violation {
                 if nv.property == v.property && nv.clause == v.clause && known.matching(&nv).is_none()
